@@ -368,10 +368,13 @@ def nt_pptdef(case):
 # ------------------------------------------------------------------------------------------
 # 2.-4. is_separable soundness
 # ------------------------------------------------------------------------------------------
-def _call_sep(rho, d, form):
+def _call_sep(rho, d, form, level=None):
+    # level (1 or 2, "extension levels 1..2" of the quantifier): with level=1 the closing symmetric-extension search is
+    # empty, so the cascade of criteria before it is exercised without the 1-40 s SDP; None = the default (2)
+    kw = {} if level is None else {"level": level}
     if form == "omitted":
-        return H.SEP_TRACER.call(rho)
-    return H.SEP_TRACER.call(rho, H.dim_argument(d, form))
+        return H.SEP_TRACER.call(rho, **kw)
+    return H.SEP_TRACER.call(rho, H.dim_argument(d, form), **kw)
 
 
 def _observe_sound(case):
@@ -379,7 +382,7 @@ def _observe_sound(case):
     rho = H.build_state(spec)
     d = spec["d"]
     lam = H.lam_min_pt(rho, d)
-    v, site = _call_sep(rho, d, case["dimform"])
+    v, site = _call_sep(rho, d, case["dimform"], case.get("level"))
     return {"lam": lam, "verdict": bool(v), "site": site}
 
 
@@ -388,7 +391,7 @@ def _judge_sound(case, obs):
     fam, d = spec["fam"], spec["d"]
     lam, v, site = obs["lam"], obs["verdict"], obs["site"]
     _event(f"{d[0]}x{d[1]}:{fam}:{v}@{site}")
-    what = f"is_separable(rho, dim={case['dimform']}:{d}) = {v} from `{site}`"
+    what = f"is_separable(rho, dim={case['dimform']}:{d}{'' if case.get('level') is None else ', level=%d' % case['level']}) = {v} from `{site}`"
     if fam == "sep":
         if lam < -1e-12:
             raise HarnessError(f"separable builder produced lambda_min(PT) = {lam}")
@@ -442,10 +445,12 @@ def _sound_deep_case(draw):
 
 @st.composite
 def _sound_big_case(draw):
-    d = draw(st.sampled_from([[2, 4], [4, 2], [3, 4], [4, 3], [4, 4], [4, 4]]))
+    # since the repairs of the realignment-strengthening, 2 x n block and Breuer-Hall tests most of these states reach
+    # the symmetric-extension SDP (about 1 s on 4x2, 6 s on 2x4, 20-40 s on 3x4 / 4x4): the cheap splits are drawn more often
+    d = draw(st.sampled_from([[2, 4], [2, 4], [2, 4], [4, 2], [4, 2], [4, 2], [4, 2], [3, 4], [4, 3], [4, 4]]))
     fam = draw(st.sampled_from(["sep", "sep", "sep", "npt"]))
     spec = draw(_sep_spec(d) if fam == "sep" else _npt_spec(d))
-    return {"state": spec, "dimform": _dimform(draw, d)}
+    return {"state": spec, "dimform": _dimform(draw, d), "level": draw(st.sampled_from([1, 1, 1, 2, None]))}
 
 
 SOUND_MAIN = Traced("sep_sound_main", _observe_sound, _judge_sound, _label_sound, _sep_exc_domain)
@@ -458,7 +463,7 @@ SOUND_BIG = Traced("sep_sound_big", _observe_sound, _judge_sound, _label_sound)
 # ------------------------------------------------------------------------------------------
 @st.composite
 def _inv_case(draw):
-    d = draw(st.sampled_from([[2, 2], [2, 3], [3, 2], [3, 3], [3, 3], [2, 4], [4, 2], [3, 4], [4, 3], [4, 4]]))
+    d = draw(st.sampled_from([[2, 2], [2, 3], [3, 2], [3, 3], [3, 3], [2, 4], [2, 4], [4, 2], [4, 2], [4, 2], [3, 4], [4, 3], [4, 4]]))
     fams = ["sep", "npt", "npt", "ppt", "ppt"] + (["bound", "bound"] if d == [3, 3] else [])
     fam = draw(st.sampled_from(fams))
     if fam == "sep":
@@ -473,7 +478,8 @@ def _inv_case(draw):
             spec["m"] = draw(st.sampled_from([0.03, 0.08, 0.1, 0.1]))
     else:
         spec = draw(_bound_spec())
-    return {"state": spec, "useed": draw(gen.SEED), "ureal": draw(st.booleans()), "both": draw(st.booleans())}
+    level = draw(st.sampled_from([1, 1, 1, 2, None])) if d[0] * d[1] > 6 else draw(st.sampled_from([None, None, 1, 2]))
+    return {"state": spec, "useed": draw(gen.SEED), "ureal": draw(st.booleans()), "both": draw(st.booleans()), "level": level}
 
 
 def _observe_inv(case):
@@ -482,13 +488,14 @@ def _observe_inv(case):
     rho = H.build_state(spec)
     lam = H.lam_min_pt(rho, d)
     calls = []
-    v, s = H.SEP_TRACER.call(rho, d)
+    kw = {} if case.get("level") is None else {"level": case["level"]}
+    v, s = H.SEP_TRACER.call(rho, d, **kw)
     calls.append(("original", bool(v), s))
     rot = H.local_unitary_orbit(rho, d, case["useed"], case["ureal"] and not np.iscomplexobj(rho))
-    v, s = H.SEP_TRACER.call(rot, d)
+    v, s = H.SEP_TRACER.call(rot, d, **kw)
     calls.append(("local-unitary", bool(v), s))
     src = rot if case["both"] else rho
-    v, s = H.SEP_TRACER.call(H.exchange_parties(src, d), d[::-1])
+    v, s = H.SEP_TRACER.call(H.exchange_parties(src, d), d[::-1], **kw)
     calls.append(("exchange+lu" if case["both"] else "exchange", bool(v), s))
     return {"calls": calls, "lam": lam}
 
@@ -500,7 +507,7 @@ def _judge_inv(case, obs):
     # wrong verdict on a transformed copy is reported as what it is, under the same signature as in the soundness
     # sub-checks); the comparison below then only matters for states of unknown separability
     for tag, v, s in obs["calls"]:
-        _judge_sound({"state": spec, "dimform": f"list,{tag}"}, {"lam": obs["lam"], "verdict": v, "site": s})
+        _judge_sound({"state": spec, "dimform": f"list,{tag}", "level": case.get("level")}, {"lam": obs["lam"], "verdict": v, "site": s})
     (t0, v0, s0) = obs["calls"][0]
     for tag, v, s in obs["calls"][1:]:
         if v != v0:
@@ -672,7 +679,7 @@ SUBCHECKS = [
     SubCheck("ppt_definition", check_ppt_definition, _pptdef_case, nt_pptdef, quick=3000, thorough=60000, fuzz=4000),
     SubCheck("sep_sound_main", SOUND_MAIN.check, _sound_main_case, SOUND_MAIN.nontrivial, quick=1600, thorough=24000, case_timeout=CASE_TIMEOUT + 30, fuzz=4000),
     SubCheck("sep_sound_3x3_deep", SOUND_DEEP.check, _sound_deep_case, SOUND_DEEP.nontrivial, quick=32, thorough=480, case_timeout=CASE_TIMEOUT + 30),
-    SubCheck("sep_sound_big", SOUND_BIG.check, _sound_big_case, SOUND_BIG.nontrivial, quick=1200, thorough=20000, case_timeout=CASE_TIMEOUT + 30, fuzz=3000),
+    SubCheck("sep_sound_big", SOUND_BIG.check, _sound_big_case, SOUND_BIG.nontrivial, quick=480, thorough=8000, case_timeout=CASE_TIMEOUT + 30, fuzz=3000),
     SubCheck("sep_invariance", INVARIANCE.check, _inv_case, INVARIANCE.nontrivial, quick=240, thorough=3600, case_timeout=CASE_TIMEOUT + 30),
     SubCheck("separable_ball", check_ball, _ball_case, nt_ball, quick=2000, thorough=40000),
     SubCheck("symext_separable", SYMEXT.check, _symext_case, SYMEXT.nontrivial, quick=800, thorough=12000, case_timeout=CASE_TIMEOUT + 30),
